@@ -555,3 +555,111 @@ Lemma io_refuted_snapshot :
   /\ g_sink (IOName (s "flag") (s "Parse")) = OptArgs
   /\ y_sink snapshot (IOName (s "flag") (s "CommandLine")) = OptStderr.
 Proof. repeat split; vm_compute; reflexivity. Qed.
+
+(* ------------------------------------------------------------------ *)
+(** * Use: interpreters of one process do not interfere (copying mode) *)
+
+Definition slot_of (st : hstate) (i : N) : option slot := nassoc i (interps st).
+
+Lemma nassoc_nset {A} k k' (v : A) l :
+  nassoc k (nset k' v l) = if N.eqb k' k then Some v else nassoc k l.
+Proof.
+  induction l as [|[k0 v0] l IH]; simpl.
+  - reflexivity.
+  - destruct (N.eqb_spec k0 k') as [->|Hn]; simpl.
+    + destruct (N.eqb k' k); reflexivity.
+    + rewrite IH. destruct (N.eqb_spec k0 k) as [->|Hn'].
+      * destruct (N.eqb_spec k' k); [congruence|reflexivity].
+      * reflexivity.
+Qed.
+
+Lemma hstep_glob rows st o : glob (y_hstep true rows st o) = glob st.
+Proof.
+  destruct o; simpl; try reflexivity.
+  destruct (nassoc i (interps st)); [|reflexivity].
+  destruct (assoc set (glob st)); reflexivity.
+Qed.
+
+Lemma hrun_glob rows ops : forall st, glob (y_hrun true rows st ops) = glob st.
+Proof.
+  induction ops as [|o r IH]; intros st; simpl; [reflexivity|].
+  unfold y_hrun in *. simpl. rewrite IH. apply hstep_glob.
+Qed.
+
+Lemma hstep_other rows st o i : owner o <> i -> slot_of (y_hstep true rows st o) i = slot_of st i.
+Proof.
+  unfold slot_of. destruct o; simpl; intros Hn; try reflexivity.
+  - rewrite nassoc_nset. destruct (N.eqb_spec i0 i); [congruence|reflexivity].
+  - destruct (nassoc i0 (interps st)); [|reflexivity].
+    destruct (assoc set (glob st)); [|reflexivity]. simpl.
+    rewrite nassoc_nset. destruct (N.eqb_spec i0 i); [congruence|reflexivity].
+Qed.
+
+Lemma hstep_own rows st st' o i :
+  glob st = glob st' -> slot_of st i = slot_of st' i -> owner o = i ->
+  slot_of (y_hstep true rows st o) i = slot_of (y_hstep true rows st' o) i.
+Proof.
+  unfold slot_of. intros Hg Hs Ho. destruct o; simpl in *; subst.
+  - now rewrite !nassoc_nset, N.eqb_refl.
+  - rewrite <- Hg, <- Hs. destruct (nassoc i (interps st)) eqn:E; [|congruence].
+    destruct (assoc set (glob st)); [|congruence]. simpl.
+    now rewrite !nassoc_nset, N.eqb_refl.
+  - exact Hs.
+Qed.
+
+Lemma hrun_snoc c rows st ops o : y_hrun c rows st (ops ++ [o]) = y_hstep c rows (y_hrun c rows st ops) o.
+Proof. unfold y_hrun. now rewrite fold_left_app. Qed.
+
+(** the slot of interpreter i after any interleaving is its slot after its own operations alone *)
+Lemma isolated_slot rows g i pre :
+  slot_of (y_hrun true rows (hinit g) pre) i = slot_of (y_hrun true rows (hinit g) (filter (own i) pre)) i.
+Proof.
+  induction pre as [|o pre IH] using rev_ind; [reflexivity|].
+  rewrite filter_app, hrun_snoc. simpl. unfold own at 2.
+  destruct (N.eqb_spec (owner o) i) as [Ho|Ho].
+  - rewrite hrun_snoc. apply hstep_own; [|exact IH|exact Ho]. now rewrite !hrun_glob.
+  - rewrite app_nil_r, hstep_other by exact Ho. exact IH.
+Qed.
+
+Lemma view_slot st st' i pkg name :
+  slot_of st i = slot_of st' i -> view true st i pkg name = view true st' i pkg name.
+Proof. unfold view, slot_of. now intros ->. Qed.
+
+Lemma houts_from rows g ops : forall pre,
+  y_houts true rows (y_hrun true rows (hinit g) pre) ops = g_houts rows g pre ops.
+Proof.
+  induction ops as [|o r IH]; intros pre; simpl; [reflexivity|].
+  rewrite <- hrun_snoc, IH. f_equal.
+  destruct o; try reflexivity. f_equal. apply view_slot, isolated_slot.
+Qed.
+
+(** every interleaving of New / Use / script compilations of any number of interpreters: each script
+    resolves what it would resolve if its interpreter were alone, and the global table is untouched *)
+Theorem use_isolated : forall rows g ops,
+  y_houts true rows (hinit g) ops = g_houts rows g [] ops
+  /\ glob (y_hrun true rows (hinit g) ops) = g.
+Proof.
+  intros rows g ops. split; [apply (houts_from rows g ops [])|apply hrun_glob].
+Qed.
+
+Lemma use_copies_live : use_copies = true.
+Proof. vm_compute. reflexivity. Qed.
+
+(** non-vacuity, on the regenerated rows: A and B both load stdlib, B (unrestricted) also loads the
+    unrestricted set, then a restricted C is created.  Copying: A prints to A, C's os.Exit panics.
+    Aliasing (binPkg adopts the caller's map): A prints to B, C gets the real os.Exit, and the global
+    table has changed. *)
+Definition iso_ops : list hop :=
+  [HNew 1 false; HUse 1 (s "stdlib"); HNew 2 true; HUse 2 (s "stdlib"); HUse 2 (s "unrestricted");
+   HEval 1 (s "fmt") (s "Println"); HEval 1 (s "os") (s "Getenv");
+   HNew 3 false; HUse 3 (s "stdlib"); HEval 3 (s "os") (s "Exit"); HEval 3 (s "fmt") (s "Println");
+   HEval 2 (s "os") (s "Exit"); HEval 2 (s "os") (s "Getenv")].
+
+Lemma iso_example :
+  map (obs_of live) (y_houts true (t_fix live) (hinit live_gtable) iso_ops)
+    = [ROwner 1; ROwner 1; RPanics; ROwner 3; RExits; RHost]
+  /\ map (obs_of live) (y_houts false (t_fix live) (hinit live_gtable) iso_ops)
+    = [ROwner 2; ROwner 1; RExits; ROwner 3; RExits; ROwner 3]
+  /\ gtable_eqb (glob (y_hrun false (t_fix live) (hinit live_gtable) iso_ops)) live_gtable = false
+  /\ gtable_eqb (glob (y_hrun true (t_fix live) (hinit live_gtable) iso_ops)) live_gtable = true.
+Proof. repeat split; vm_compute; reflexivity. Qed.
